@@ -132,3 +132,20 @@ reg("C11", "dsl", "Every design of all families plus deliberately ill-formed one
     "reference well-formedness predicate computed from syntax (any exception = rejection).",
     "bounded-exhaustive design enumeration, elaboration verdict compared with a reference well-formedness predicate",
     note=E2_NOTE)
+
+reg("C09", "dsl", "Designs without intra-component ready dependencies under trivial_roundrobin_cc_scheduler: BFS over arbiter "
+    "registers x per-transaction wait counters with every valuation in every state; per component of the reference conflict graph "
+    "<=1 grant, a grant whenever something is fully enabled, and no wait of |component| consecutive enabled cycles.",
+    "bounded-exhaustive design enumeration + explicit-state exploration of arbiter state x monitor against a reference interpreter",
+    note=E2_NOTE)
+reg("C12", "tsx", "Every condition() design of a bounded family (transaction / method with 1-2 callers, also conditionally called; "
+    "1-3 branches + default; nonblocking x priority; shared callees; one nesting level; validate_arguments variant) x all input "
+    "valuations; the five clauses of the statement are evaluated per condition block on branch witnesses.",
+    "bounded-exhaustive design enumeration + exhaustive input enumeration on the elaborated design",
+    note="Trusts pysim; 'admissible' = condition true, callees ready, arguments valid, inner block able to proceed; branch callees are "
+    "not shared with transactions outside the block.")
+reg("C13", "tsx", "Every design connecting 1-3 writers and 1-3 readers through Connect (forward/reverse 1-bit data, optional extra "
+    "callee per caller) and bare simultaneous() pairs x all input valuations: both sides run in exactly the same cycles and the data "
+    "of the running pair is exchanged in both directions.",
+    "bounded-exhaustive design enumeration + exhaustive input enumeration on the elaborated design",
+    note="Trusts pysim; 1-bit payloads.")
